@@ -27,6 +27,20 @@ waiting on (the function is resumed and may await X_k while X_k is running that 
 returns another value / raises / returns a pending Deferred; X_k's outcome is what a callback added
 at that moment would see, i.e. what the running callback produces - never its input.
 
+Fired-and-paused harness Deferreds: X_k may have been fired and explicitly pause()d before the
+function starts, with 0..2 callbacks queued behind the pause (wrap the value / turn a failure into a
+value / raise); the scheduler unpause()s it later or never within the run.  Its outcome is what the
+queued callbacks produce; the function must not observe anything of X_k before unpause() (checked at
+the observation itself), cancel() reaches X_k but is a no-op on a fired Deferred, and a run whose
+function still waits for a never-unpaused X_k must end un-fired with the synchronous replay stopping
+at exactly that await.
+
+Exceptions that are BaseException but not Exception (a harness class, asyncio.CancelledError,
+SystemExit, KeyboardInterrupt) are raised by program nodes and delivered as failing X outcomes in
+all three compilations; like any uncaught exception they must become the failure of the returned
+Deferred (never propagate out of the starting call, never unwind into the code that fired the
+awaited Deferred).  GeneratorExit is not used.  All driving calls of the harness catch BaseException.
+
 Guards: programs never return a Deferred, never use returnValue, never re-await a Deferred (each
 dynamic await gets its own X_k), never yield a fired-and-consumed Deferred; a function that
 swallows CancelledError and carries on is legitimate - the final outcome is then whatever the
@@ -44,7 +58,9 @@ TECHNIQUE = "runtime monitoring: the same program compiled synchronously and rep
 RULE = ("random ASTs (<= 3 functions, <= 9 static awaits, loops <= 3 iterations, try/except/finally nesting <= 3) "
         "compiled three ways; 10 harness Deferreds per run, each pre-fired or fired later (value or failure; plain or "
         "chained to an inner Deferred, or 'hot': carrying a callback that resumes the waiting function and then changes "
-        "the result / raises / returns a pending Deferred; 4 canceller behaviours) in a scheduler-chosen order; 40% of the "
+        "the result / raises / returns a pending Deferred, or fired-and-paused with 0..2 callbacks queued behind the "
+        "pause and unpaused later or never; failures are Exception or BaseException-only classes; 4 canceller "
+        "behaviours) in a scheduler-chosen order; raise nodes use the same 5 exception classes; 40% of the "
         "multi-function programs contain re-entrant cancel-the-root nodes in nested functions; per program and flavour "
         "(inlineCallbacks / ensureDeferred): one run without cancellation, one run per suspension point with cancel() "
         "injected there, one run per suspension point with a second cancel() at a later suspension point, and one "
@@ -61,7 +77,11 @@ FLOORS = {"runs_compared_with_sync_replay": 5000, "await_observations_checked": 
           "awaits_of_deferred_running_its_callback_value": 500, "awaits_of_deferred_running_its_callback_raise": 500,
           "awaits_of_deferred_running_its_callback_defer": 500, "hot_callback_resumed_the_waiting_function": 2000,
           "reentrant_cancels_while_root_waiting": 2000,
-          "reentrant_cancel_then_nested_function_finished_without_suspending": 500}
+          "reentrant_cancel_then_nested_function_finished_without_suspending": 500,
+          "paused_deferreds_unpaused": 2000, "awaits_of_fired_but_paused_deferred": 1000,
+          "runs_ending_suspended_on_never_unpaused_deferred": 200, "cancellations_while_awaiting_paused_deferred": 300,
+          "baseexception_failures_fired_into_awaited_deferreds": 1000, "baseexception_observed_at_await": 500,
+          "baseexception_final_outcomes": 300, "baseexception_raised_before_first_suspension": 50}
 READY = True
 
 M = 10
@@ -96,6 +116,31 @@ class Boom(Exception):
 
 class ReplayDiverged(BaseException):
     pass
+
+
+class HarnessBaseExc(BaseException):
+    """A BaseException that is not an Exception (like asyncio.CancelledError, SystemExit, KeyboardInterrupt)."""
+
+    def __init__(self, tag):
+        BaseException.__init__(self, tag)
+        self.tag = tag
+
+
+EXC_KINDS = ("boom", "hbase", "acancel", "sysexit", "kbint")
+
+
+def make_exc(kind, tag):
+    """Exception object of the given class carrying `tag` (tags are unique per raise site / per X_k)."""
+    if kind == "boom":
+        return Boom(tag)
+    if kind == "hbase":
+        return HarnessBaseExc(tag)
+    if kind == "acancel":
+        import asyncio
+        return asyncio.CancelledError(tag)
+    if kind == "sysexit":
+        return SystemExit(tag)
+    return KeyboardInterrupt(tag)
 
 
 # ---- program generation ---------------------------------------------------------------------------
@@ -150,7 +195,7 @@ class Gen:
                 final = None
                 k = r.random()
                 if k < 0.75:
-                    handler = (r.choice(("all", "all", "boom", "cancel")), self.new_site(), self.block(fn, depth + 1, loops, 0, 2))
+                    handler = (r.choice(("all", "all", "boom", "cancel", "base")), self.new_site(), self.block(fn, depth + 1, loops, 0, 2))
                 if k > 0.45:
                     final = self.block(fn, depth + 1, loops, 1, 2)
                 return ("try", body, handler, final)
@@ -165,7 +210,7 @@ class Gen:
             if c < 0.93:
                 if not last or depth == 0:
                     continue
-                return ("raise", self.new_site())
+                return ("raise", self.new_site(), r.choice(EXC_KINDS[1:]) if r.random() < 0.3 else "boom")
             if c < 0.96:
                 if not loops or not last:
                     continue
@@ -199,7 +244,8 @@ def emit(out, stmts, ind, fl, loopdepth=0):
         if op == "await":
             src = "H.S(k)" if fl == "sync" else aw + "H.X(k)"
             out += [ind + "k = H.A(%d, %r)" % (s[1], fl[0]), ind + "try:", ind + "    r = " + src,
-                    ind + "except Exception as e:", ind + "    H.N(k, 'x', e)", ind + "    raise",
+                    ind + "except (GeneratorExit, H.Diverged):", ind + "    raise",
+                    ind + "except BaseException as e:", ind + "    H.N(k, 'x', e)", ind + "    raise",
                     ind + "else:", ind + "    H.N(k, 'v', r)"]
         elif op == "plain":
             src = {"gen": "yield %d" % s[2], "coro": "await H.succeed(%d)" % s[2], "sync": "%d" % s[2]}[fl]
@@ -215,14 +261,15 @@ def emit(out, stmts, ind, fl, loopdepth=0):
                 src = "await " + {("gen", 0): "F%d_gend()", ("gen", 1): "H.ensureDeferred(F%d_gen())", ("coro", 0): "F%d_coro()",
                                   ("coro", 1): "H.ensureDeferred(F%d_coro())"}[(target, via)] % fn
             out += [ind + "H.P(('call', %d))" % site, ind + "try:", ind + "    r = " + src,
-                    ind + "except Exception as e:", ind + "    H.P(('callx', %d, H.tok(e)))" % site, ind + "    raise",
+                    ind + "except (GeneratorExit, H.Diverged):", ind + "    raise",
+                    ind + "except BaseException as e:", ind + "    H.P(('callx', %d, H.tok(e)))" % site, ind + "    raise",
                     ind + "else:", ind + "    H.P(('callv', %d, r))" % site]
         elif op == "try":
             _, body, handler, final = s
             out.append(ind + "try:")
             emit(out, body, ind + "    ", fl, loopdepth)
             if handler:
-                cls = {"all": "Exception", "boom": "H.Boom", "cancel": "H.CancelledError"}[handler[0]]
+                cls = {"all": "Exception", "boom": "H.Boom", "cancel": "H.CancelledError", "base": "H.BASES"}[handler[0]]
                 out += [ind + "except %s as e:" % cls, ind + "    H.P(('handler', %d, H.tok(e)))" % handler[1]]
                 if handler[2]:
                     emit(out, handler[2], ind + "    ", fl, loopdepth)
@@ -235,7 +282,7 @@ def emit(out, stmts, ind, fl, loopdepth=0):
         elif op == "return":
             out.append(ind + ("return r" if s[1] == "r" else "return ('R', %d)" % s[1]))
         elif op == "raise":
-            out.append(ind + "raise H.Boom(('p', %d))" % s[1])
+            out.append(ind + "raise H.make_exc(%r, ('p', %d))" % (s[2], s[1]))
         elif op == "break":
             out.append(ind + "break")
         elif op == "pt":
@@ -262,8 +309,12 @@ def compile_program(prog):
 class H:
     """One execution (async or synchronous replay) of a compiled program."""
     Boom = Boom
+    Diverged = ReplayDiverged
+    make_exc = staticmethod(make_exc)
 
     def __init__(self):
+        import asyncio
+        self.BASES = (HarnessBaseExc, asyncio.CancelledError, SystemExit, KeyboardInterrupt)
         tw = _tw()
         self.defer = tw["defer"]
         self.CancelledError = tw["defer"].CancelledError
@@ -286,16 +337,21 @@ class H:
         self.awaited_in_relay = set() # X_k awaited while X_k was running its own callback
         self.reentrant_pending = False
         self.reentrant_problem = None
+        self.diverged = None          # sync replay: index of the await whose outcome is unknown (replay stops there)
 
     def tok(self, e):
         if isinstance(e, Boom):
             return ("boom", e.tag)
         if isinstance(e, self.CancelledError):
             return "CANCELLED"
+        if isinstance(e, self.BASES):
+            return ("base", type(e).__name__, e.args[:1])
         return ("exc", type(e).__name__, str(e)[:80])
 
     # called by generated code
     def A(self, site, flavour):
+        if self.diverged is not None:     # a `return`/`break` inside finally can swallow ReplayDiverged: keep stopping
+            raise ReplayDiverged(self.diverged)
         k = self.next_k
         if k >= M:
             raise Boom(("overflow",))
@@ -312,6 +368,8 @@ class H:
             run.ctx.count("awaits_of_deferred_running_its_callback_%s" % self.plan[k]["hot"])
         if self.outcome[k] is None:
             self.reentrant_pending = False      # about to suspend
+        if run.still_paused[k]:
+            run.ctx.count("awaits_of_fired_but_paused_deferred")
         return self.xs[k]
 
     def C(self, site):
@@ -322,6 +380,8 @@ class H:
         one that is running right now, where nothing is awaited any more - so no un-fired X may be
         cancelled by it and the program carries on exactly as the synchronous replay (which only
         records the note)."""
+        if self.diverged is not None:
+            raise ReplayDiverged(self.diverged)
         self.notes.append(("cancelroot", site))
         run = self.run
         if self.mode != "async" or self.root is None or run.fired:
@@ -349,17 +409,24 @@ class H:
     def S(self, k):
         o = self.outcome[k]
         if o is None:
-            raise ReplayDiverged("synchronous replay awaits X%d whose outcome was never observed" % k)
+            self.diverged = k
+            raise ReplayDiverged(k)
         if o[0]:
             return o[1]
         raise (o[2] if o[2] is not None else self.CancelledError())
 
     def N(self, k, kind, r):
+        if self.diverged is not None:
+            raise ReplayDiverged(self.diverged)
         self.notes.append(("obs", k, kind, r if kind == "v" else self.tok(r)))
+        if self.run is not None and self.run.still_paused[k] and self.run.resumed_while_paused is None:
+            self.run.resumed_while_paused = k
         if self.cur == k:
             self.cur = None
 
     def P(self, note):
+        if self.diverged is not None:
+            raise ReplayDiverged(self.diverged)
         self.notes.append(note)
         if self.reentrant_pending and note[0] in ("callv", "callx"):
             self.reentrant_pending = False
@@ -386,7 +453,8 @@ def make_plan(rng):
         plan.append({"pre": rng.random() < (0.15 if style < 0.5 else 0.5 if style < 0.8 else 0.0),
                      "ok": rng.random() < okp,
                      "cmode": rng.choice(CMODES) if rng.random() < 0.6 else "default",
-                     "chained": rng.random() < 0.2, "hot": None, "steal": False})
+                     "chained": rng.random() < 0.2, "hot": None, "steal": False, "paused": None,
+                     "exc": rng.choice(EXC_KINDS[1:]) if rng.random() < 0.15 else "boom"})
     if rng.random() < 0.4:
         # "hot" X_k: carries a callback that first fires the Deferred the function is waiting on (so the
         # function is resumed, and may await X_k, while X_k is running that callback) and then returns a
@@ -394,8 +462,15 @@ def make_plan(rng):
         for k in range(1, M):
             if rng.random() < 0.4:
                 plan[k].update(hot=rng.choice(("value", "raise", "defer")), steal=rng.random() < 0.75, pre=False, chained=False)
+    if rng.random() < 0.4:
+        # fired-and-explicitly-paused X_k with 0..2 callbacks queued behind the pause; unpaused by the scheduler
+        # ("later") or not at all within the run ("never": the function must stay suspended on it)
+        for k in range(M):
+            if not plan[k]["hot"] and rng.random() < 0.3:
+                plan[k].update(paused={"ops": [rng.choice(("wrap", "recover", "fail")) for _ in range(rng.randint(0, 2))],
+                                       "unpause": "never" if rng.random() < 0.15 else "later"}, pre=False, chained=False)
     spread = rng.choice((0.4, 0.4, 2.0, 10.0))
-    toks = [k for k in range(M) if not plan[k]["pre"]] + [k for k in range(M) if plan[k]["hot"] == "defer"]
+    toks = [k for k in range(M) if not plan[k]["pre"] and not (plan[k]["paused"] and plan[k]["paused"]["unpause"] == "never")] + [k for k in range(M) if plan[k]["hot"] == "defer"]
     order = sorted(toks, key=lambda k: k + rng.uniform(-spread, spread))
     return plan, order
 
@@ -423,6 +498,10 @@ class AsyncRun:
         self.cancel_log = []
         self.raw_fired = [False] * M     # hot X_k: has X_k itself been fired (its callback may then be waiting on Z_k)
         self.in_relay = None             # k while hot X_k's callback is executing its "fire the awaited one" part
+        self.still_paused = [False] * M  # fired-and-paused X_k not yet unpaused
+        self.resumed_while_paused = None
+        self.stuck = None                # k if the run legitimately ends suspended on a never-unpaused X_k
+        self.paused_raw, self.paused_exc = {}, {}
 
     def violation(self, key, what, **extra):
         if self.bad:
@@ -448,7 +527,24 @@ class AsyncRun:
                 y = XD(lambda d, k=k: d.callback(("cv", k)))
             else:
                 y = XD(lambda d, k=k: d.errback(h.outcome[k][2] if h.outcome[k] and isinstance(h.outcome[k][2], Boom) else Boom(("cx?", k))))
-            if p["hot"]:
+            if p["paused"]:
+                x = y = XD()              # fired now, paused, callbacks queued behind the pause
+                if p["ok"]:
+                    x.callback(("x", k))
+                else:
+                    self.paused_raw[k] = make_exc(p["exc"], ("x", k))
+                    x.errback(self.paused_raw[k])
+                x.pause()
+                self.still_paused[k] = True
+                for j, op in enumerate(p["paused"]["ops"]):
+                    if op == "wrap":
+                        x.addCallback(lambda v, j=j: ("w", j, v))
+                    elif op == "recover":
+                        x.addErrback(lambda f, k=k: ("rec", k))
+                    else:
+                        self.paused_exc[(k, j)] = Boom(("pf", k, j))
+                        x.addCallback(lambda v, k=k, j=j: self.raise_(self.paused_exc[(k, j)]))
+            elif p["hot"]:
                 x = XD()
                 x.addCallback(self.relay, k)
                 if p["hot"] != "defer":
@@ -463,6 +559,24 @@ class AsyncRun:
             h.ys.append(y)
             if p["pre"]:
                 self.fire(k)
+
+    def raise_(self, e):
+        raise e
+
+    def paused_outcome(self, k):
+        """Model of the queued callbacks: X_k's outcome once unpaused."""
+        p = self.plan[k]
+        ok, val, exc = p["ok"], ("x", k), None
+        if not ok:
+            exc = self.paused_raw[k]
+        for j, op in enumerate(p["paused"]["ops"]):
+            if op == "wrap" and ok:
+                val = ("w", j, val)
+            elif op == "recover" and not ok:
+                ok, val, exc = True, ("rec", k), None
+            elif op == "fail" and ok:
+                ok, exc = False, self.paused_exc[(k, j)]
+        return (True, val, None) if ok else (False, self.h.tok(exc), exc)
 
     def relay(self, v, k):
         """Callback carried by hot X_k."""
@@ -486,6 +600,12 @@ class AsyncRun:
     def fire(self, k):
         """Give X_k its (next) firing: hot X_k itself first, then - for 'defer' - the Deferred its callback returned."""
         h, p = self.h, self.plan[k]
+        if p["paused"]:
+            h.outcome[k] = self.paused_outcome(k)
+            self.still_paused[k] = False
+            self.ctx.count("paused_deferreds_unpaused")
+            h.xs[k].unpause()
+            return
         if p["hot"] and not self.raw_fired[k]:
             self.raw_fired[k] = True
             if p["hot"] == "value":
@@ -498,8 +618,10 @@ class AsyncRun:
             h.outcome[k] = (True, ("x", k), None)
             h.ys[k].callback(("x", k))
         else:
-            e = Boom(("x", k))
-            h.outcome[k] = (False, ("boom", ("x", k)), e)
+            e = make_exc(p["exc"], ("x", k))
+            if p["exc"] != "boom":
+                self.ctx.count("baseexception_failures_fired_into_awaited_deferreds")
+            h.outcome[k] = (False, h.tok(e), e)
             h.ys[k].errback(e)
 
     def cancel_counts(self):
@@ -514,8 +636,14 @@ class AsyncRun:
         if suspended:
             if k is None or h.outcome[k] is not None:
                 return self.violation("harness-inconsistency", "function suspended but no un-fired X is being awaited", cur=k)
-            h.outcome[k] = cancel_outcome(h, k)      # what X_k will turn out to be
+            paused_k = self.still_paused[k]
             hot_unfired = bool(self.plan[k]["hot"]) and not self.raw_fired[k]
+            if paused_k:
+                # X_k has fired already (it is only paused): cancel() reaches it but is a no-op; its outcome
+                # still arrives at unpause() and the function must stay suspended until then
+                ctx.count("cancellations_while_awaiting_paused_deferred")
+            else:
+                h.outcome[k] = cancel_outcome(h, k)      # what X_k will turn out to be
             if hot_unfired:
                 self.raw_fired[k] = True
             ctx.count("cancellations_injected_while_suspended")
@@ -541,6 +669,8 @@ class AsyncRun:
                 return self.violation("cancel-reached-other-deferred", "cancel() while suspended cancelled a Deferred that is not the awaited one", awaiting=k, reached=reached)
             if after[k][1] == before[k][1] and not hot_unfired:
                 return self.violation("cancel-did-not-reach-awaited-deferred", "cancel() did not get through to the Deferred the awaited one is chained to", awaiting=k)
+            if paused_k:
+                return
             o = h.outcome[k]
             ctx.count("cancel_observed_as_cancellederror" if o[1] == "CANCELLED" else ("cancel_observed_as_canceller_value" if o[0] else "cancel_observed_as_canceller_failure"))
             if len(h.notes) == nnotes:
@@ -590,7 +720,7 @@ class AsyncRun:
                 try:
                     self.fire(k)
                 except BaseException as e:  # noqa
-                    return self.violation("harness-inconsistency", "firing X raised", k=k, error=repr(e)[:200])
+                    return self.violation("exception-leaked-to-firer-of-awaited-deferred", "firing / unpausing an awaited Deferred raised", k=k, error=repr(e)[:200])
             if len(self.fired) > 1:
                 break
         if self.bad:
@@ -600,13 +730,34 @@ class AsyncRun:
         if h.reentrant_problem:
             key, what, extra = h.reentrant_problem
             return self.violation(key, what, **extra)
+        if self.resumed_while_paused is not None:
+            return self.violation("function-resumed-while-awaited-deferred-paused", "the function observed an outcome of a fired-but-paused Deferred before unpause()",
+                                  await_index=self.resumed_while_paused)
         if not self.fired:
+            c = h.cur
+            if c is not None and self.still_paused[c]:
+                self.stuck = c             # legitimately still waiting for a never-unpaused X
+                ctx.count("runs_ending_suspended_on_never_unpaused_deferred")
+                ctx.count("suspensions", self.suspensions)
+                return
             return self.violation("returned-deferred-never-fired", "every X has fired but the returned Deferred has not")
         if len(self.fired) != 1:
             return self.violation("returned-deferred-fired-more-than-once", "callbacks of the returned Deferred ran more than once")
         ctx.count("suspensions", self.suspensions)
 
+    def drain(self):
+        """Let a still suspended function run to its end (no judgement): avoids GeneratorExit noise at collection."""
+        for _ in range(3):
+            for k in range(M):
+                if self.h.outcome[k] is None and not self.fired:
+                    try:
+                        self.fire(k)
+                    except BaseException:  # noqa
+                        pass
+
     def final(self):
+        if self.stuck is not None:
+            return ("suspended-on", self.stuck)
         r = self.fired[0]
         if isinstance(r, _tw()["Failure"]):
             return ("raised", self.h.tok(r.value))
@@ -617,11 +768,12 @@ def sync_replay(ns, h, plan, outcomes):
     h.reset("sync", plan, outcomes)
     try:
         v = ns["F0_sync"]()
-        return ("returned", v)
+        r = ("returned", v)
     except ReplayDiverged as e:
-        return ("diverged", str(e))
-    except Exception as e:  # noqa
-        return ("raised", h.tok(e))
+        r = ("diverged", e.args[0])
+    except BaseException as e:  # noqa
+        r = ("raised", h.tok(e))
+    return ("diverged", h.diverged) if h.diverged is not None else r
 
 
 def check_run(ctx, ns, h, fl, plan, order, cancel_at, info):
@@ -629,13 +781,16 @@ def check_run(ctx, ns, h, fl, plan, order, cancel_at, info):
     a = AsyncRun(ctx, ns, h, fl, plan, order, cancel_at, info)
     a.run()
     ctx.evaluated()
+    notes = list(h.notes)
+    outcomes = list(h.outcome)
+    nawaits = h.next_k
+    if not a.fired:
+        a.drain()
+        h.notes, h.outcome = list(notes), list(outcomes)
     for d in h.xs + h.ys:            # failures nobody awaited are not "unhandled errors"
         d.addErrback(lambda f: None)
     if a.bad:
         return a
-    notes = list(h.notes)
-    outcomes = list(h.outcome)
-    nawaits = h.next_k
     final = a.final()
     # (1) outcome consistency per await
     for n in notes:
@@ -647,6 +802,8 @@ def check_run(ctx, ns, h, fl, plan, order, cancel_at, info):
             ctx.count("prefired_awaits")
         if n[2] == "x":
             ctx.count("failures_thrown_into_function")
+            if n[3][0] == "base":
+                ctx.count("baseexception_observed_at_await")
         want = None if o is None else (("v", o[1]) if o[0] else ("x", o[1]))
         if want != (n[2], n[3]):
             key = "await-observed-wrong-outcome"
@@ -661,6 +818,8 @@ def check_run(ctx, ns, h, fl, plan, order, cancel_at, info):
             return a
     # (2) synchronous replay
     sfinal = sync_replay(ns, h, plan, outcomes)
+    if sfinal[0] == "diverged":       # the replay stops where an outcome is unknown; legitimate only where the async run still waits
+        sfinal = ("suspended-on", sfinal[1])
     snotes = h.notes
     ctx.count("runs_compared_with_sync_replay")
     if snotes != notes:
@@ -683,6 +842,10 @@ def check_run(ctx, ns, h, fl, plan, order, cancel_at, info):
         else:
             ctx.count("distinct_cases_beyond_hash_cap")
     ctx.count("nested_calls", sum(1 for n in notes if n[0] == "call"))
+    if final[0] == "raised" and final[1][0] == "base":
+        ctx.count("baseexception_final_outcomes")
+        if a.suspensions == 0:
+            ctx.count("baseexception_raised_before_first_suspension")
     return a
 
 
